@@ -45,12 +45,15 @@ Rule(P, T) == RuleUpTo(P, T, Len(P))
 
 (* ---- the laws of C02 on an observed history
    c : [P, T]          graph and revision trees as read back from the real repository
-   o : [fv, fp, check] fv[r][f] = get_file_revision; fp[r][f] = parents of text key (f, r) for the keys that exist
-                       (f in DOMAIN fp[r] iff the key exists); check = what Repository.check() reported ("ok" or text) *)
+   o : [fv, fp, nodup, check]
+                       fv[r][f] = get_file_revision; fp[r][f] = parents of text key (f, r) for the keys that exist
+                       (f in DOMAIN fp[r] iff the key exists), as a set; nodup = no text key lists a parent twice;
+                       check = what Repository.check() reported ("ok" or text) *)
 \* last-changed revision of every entry = the rule's
 LawLastChanged(c, R, o) == \A r \in DOMAIN c.T : \A f \in DOMAIN c.T[r] : o.fv[r][f] = R.fv[r][f]
-\* per-file parents of every version a revision introduced = the heads among the versions in its parents
-LawParents(c, R, o) == \A r \in DOMAIN c.T : \A f \in DOMAIN c.T[r] :
+\* per-file parents of every version a revision introduced = the heads among the versions in its parents, each once
+LawParents(c, R, o) == /\ o.nodup
+                       /\ \A r \in DOMAIN c.T : \A f \in DOMAIN c.T[r] :
                            (o.fv[r][f] = r /\ R.fv[r][f] = r) => (f \in DOMAIN o.fp[r] /\ o.fp[r][f] = R.fp[r][f])
 \* every last-changed revision names an existing text key, and a revision adds no text key it does not reference
 LawKeys(c, R, o) == /\ \A r \in DOMAIN c.T : \A f \in DOMAIN c.T[r] : o.fv[r][f] \in DOMAIN o.fp /\ f \in DOMAIN o.fp[o.fv[r][f]]
@@ -62,5 +65,5 @@ Law(n, c, R, o) == CASE n = "last-changed" -> LawLastChanged(c, R, o) [] n = "pa
                      [] n = "keys" -> LawKeys(c, R, o) [] n = "check" -> LawCheck(c, R, o)
 FailedR(c, R, o) == {n \in Rng(LawNames) : ~Law(n, c, R, o)}
 Failed(c, o) == Let(Rule(c.P, c.T), LAMBDA R : FailedR(c, R, o))
-SpecOut(c) == Let(Rule(c.P, c.T), LAMBDA R : [fv |-> R.fv, fp |-> R.fp, check |-> "ok"])
+SpecOut(c) == Let(Rule(c.P, c.T), LAMBDA R : [fv |-> R.fv, fp |-> R.fp, nodup |-> TRUE, check |-> "ok"])
 =============================================================================
